@@ -103,6 +103,38 @@ func c15Pair(seed uint64, shape string) *lib.Pair {
 		p.New.PutFile("big.bin", nd)
 		p.Feat["fresh-run-across-buffer-wrap"] = true
 		return p
+	case "hugeold":
+		// an old build of more than 2048 blocks in which a few distinct blocks recur in every part of the file: the
+		// differ has several equally good origins for each block of the new file and must always pick the same one
+		p := &lib.Pair{Old: lib.NewBuild(), New: lib.NewBuild(), Feat: map[string]bool{}}
+		var blocks [][]byte
+		for i := 0; i < 7; i++ {
+			blocks = append(blocks, lib.RandomBytes(lib.BS, r.Uint64()))
+		}
+		const nb = 2240
+		od := make([]byte, 0, nb*lib.BS+100)
+		for i := 0; i < nb; i++ {
+			k := (i*5 + i/97) % (len(blocks) + 3)
+			if k < len(blocks) {
+				od = append(od, blocks[k]...)
+			} else {
+				od = append(od, lib.RandomBytes(lib.BS, r.Uint64())...)
+			}
+		}
+		od = append(od, lib.RandomBytes(100, r.Uint64())...)
+		p.Old.PutFile("huge.bin", od)
+		var nd []byte
+		for _, k := range []int{3, 0, 6, 1, 1, 5, 2, 4} {
+			nd = append(nd, blocks[k]...)
+		}
+		nd = append(nd, lib.RandomBytes(777, r.Uint64())...)
+		for _, k := range []int{2, 3, 4, 5} {
+			nd = append(nd, blocks[k]...)
+		}
+		p.New.PutFile("huge.bin", nd)
+		p.New.PutFile("other.bin", append(append([]byte(nil), blocks[6]...), blocks[0]...))
+		p.Feat["recurring-blocks-in-an-old-build-of-more-than-2048-blocks"] = true
+		return p
 	case "tiny":
 		return lib.GenPair(seed, lib.GenOpts{ManyTiny: true, MaxFile: 3000, MinFiles: 1, MaxFiles: 2})
 	case "edges":
@@ -139,6 +171,17 @@ func c15Cases(tier string, seed uint64, flavor string) []lib.Case {
 	for i := 0; i < n; i++ {
 		s := c15Spec{PairSeed: lib.Mix(seed, 15, uint64(i)), Shape: shapes[i%len(shapes)], Comp: comps[i%len(comps)], Runs: runs}
 		cases = append(cases, lib.Case{Seed: s.PairSeed, Kind: s.Shape, Spec: lib.MustSpec(s)})
+	}
+	if flavor != "race" {
+		// one 140 MiB old build (diff runs only: no decoy, no concurrent twin, no optimizer)
+		nh := 1
+		if tier == "thorough" {
+			nh = 3
+		}
+		for i := 0; i < nh; i++ {
+			s := c15Spec{PairSeed: lib.Mix(seed, 1599, uint64(i)), Shape: "hugeold", Comp: comps[i%len(comps)], Runs: runs}
+			cases = append(cases, lib.Case{Seed: s.PairSeed, Kind: s.Shape, Spec: lib.MustSpec(s)})
+		}
 	}
 	return cases
 }
@@ -195,7 +238,7 @@ func c15Run(c lib.Case, env *lib.Env) lib.Result {
 		sw := &yieldWriter{rng: lib.NewRng(lib.Mix(cs, 2))}
 		var sp *lib.ShortReadPool
 		var err error
-		if run == 1 && s.Shape != "bigfresh" {
+		if run == 1 && s.Shape != "bigfresh" && s.Shape != "hugeold" {
 			// this run's DiffContext object has diffed before: against a decoy old build with the same paths, sizes and
 			// block counts but other content
 			decoy := lib.NewBuild()
@@ -263,7 +306,7 @@ func c15Run(c lib.Case, env *lib.Env) lib.Result {
 	}
 	// two independent diffs running at the same time in this process (different pairs, pools and sinks) must not
 	// influence each other: same bytes as when they run alone
-	if firstPatch != nil && s.Shape != "bigfresh" {
+	if firstPatch != nil && s.Shape != "bigfresh" && s.Shape != "hugeold" {
 		other := c15Pair(lib.Mix(s.PairSeed, 77), "generic")
 		o2, n2 := filepath.Join(env.Scratch, "old2"), filepath.Join(env.Scratch, "new2")
 		other.Old.Materialize(o2)
@@ -305,7 +348,7 @@ func c15Run(c lib.Case, env *lib.Env) lib.Result {
 		}
 	}
 	// optimizer determinism for fixed parameters (bsdiff hooks perturb workers, dispatcher and collector)
-	if firstPatch != nil && s.Shape != "bigfresh" {
+	if firstPatch != nil && s.Shape != "bigfresh" && s.Shape != "hugeold" {
 		for _, op := range []lib.OptParams{{Partitions: 2}, {Partitions: 5, ForceMapAll: true}, {Partitions: 0, SSC: 4}, {Partitions: 0, SSC: -1}} {
 			op.Comp = &lib.Comp{Algo: "none"}
 			var first []byte
